@@ -5,10 +5,10 @@ package tars
 import (
 	"fmt"
 
-	vm__ "verif/vm"
-	time "verif/vm/vtime"
 	"github.com/TarsCloud/TarsGo/tars/protocol/res/endpointf"
 	"github.com/TarsCloud/TarsGo/tars/util/endpoint"
+	vm__ "verif/vm"
+	time "verif/vm/vtime"
 
 	"github.com/TarsCloud/TarsGo/tars/registry"
 	"github.com/TarsCloud/TarsGo/tars/transport"
@@ -153,6 +153,8 @@ type VerifEpState struct {
 	Status       bool
 	Closed       bool
 	InActive     bool // member of the active (rotation) list
+	RegInactive  bool // the registry lists the endpoint as inactive
+	InSelector   bool // member of the round-robin selector (where calls actually go)
 	InProbeList  bool
 	ConnClosed   bool
 	LastFail     int32
@@ -163,7 +165,7 @@ type VerifEpState struct {
 	SinceCheck   int64
 }
 
-// VerifEndpointStates lists the registry's active endpoints ordered by port.
+// VerifEndpointStates lists the endpoints the registry knows (active and inactive) ordered by port.
 func VerifEndpointStates(s *ServantProxy) (out []VerifEpState, probeQueue int, cursor string) {
 	em, ok := s.manager.(*endpointManager)
 	if !ok {
@@ -176,11 +178,19 @@ func VerifEndpointStates(s *ServantProxy) (out []VerifEpState, probeQueue int, c
 		active[ep.Key] = true
 	}
 	epfs := append([]endpointf.EndpointF{}, em.activeEpf...)
+	nAct := len(epfs)
+	epfs = append(epfs, em.inactiveEpf...)
 	rr := em.activeEpRoundRobin
 	em.epLock.Unlock()
-	for _, ef := range epfs {
+	inSel := map[int32]bool{}
+	if rr != nil {
+		for _, e := range rr.VerifState().Endpoints {
+			inSel[e.Port] = true
+		}
+	}
+	for k, ef := range epfs {
 		ep := endpoint.Tars2endpoint(ef)
-		st := VerifEpState{Port: ef.Port, InActive: active[ep.Key], SinceSuccess: -1}
+		st := VerifEpState{Port: ef.Port, InActive: active[ep.Key], SinceSuccess: -1, RegInactive: k >= nAct, InSelector: inSel[ef.Port]}
 		if v, ok := em.epList.Load(ep.Key); ok {
 			a := v.(*AdapterProxy)
 			st.HasAdapter, st.Status, st.Closed = true, a.status, a.closed
